@@ -22,6 +22,8 @@ Transformations (complete list - the evidence file reports the counts per functi
       `[elt for x in it if c]` -> `__vc__.listcomp(it, lambda x: elt, lambda x: c)`; for an ordinary iterable the helper
       IS that comprehension, a symbolic collection answers through `_vc_listcomp`.  With `comprehensions = 'tuple'` also
       `[elt for a, b in it if c]` -> `__vc__.listcomp_star(it, lambda a, b: elt, lambda a, b: c)`.
+      T6d: under the same opt-in a single-generator dict comprehension `{k: v for x in it if c}` -> `__vc__.dictcomp(it, lambda x: k, lambda x: v, lambda x: c)`.
+      T6g: opt-in `genexps = True`: a single-generator generator expression is evaluated as the list comprehension with the same parts.
   T4  global names are resolved in the spec environment (numpy -> pyvc.npspec, builtins ->
       pyvc.pyspec, plus what the contract supplies); an unknown global raises OutOfSubset.
 """
@@ -180,8 +182,9 @@ def _locals():
 
 
 class Transformer(ast.NodeTransformer):
-    def __init__(self, fn, loop_ordinals_to_cut, rebind=None, comprehensions=False):
+    def __init__(self, fn, loop_ordinals_to_cut, rebind=None, comprehensions=False, genexps=False):
         self.fn = fn
+        self.genexps = genexps
         self.rebind = rebind or {}          # {loop ordinal: names havocked at the head although not syntactically assigned (Loop.rebind)}
         self.comprehensions = comprehensions
         self.ordinal = {id(n): k for k, n in enumerate(loops_in_source_order(fn))}
@@ -284,6 +287,39 @@ class Transformer(ast.NodeTransformer):
             cond = ast.Lambda(args=args, body=test)
         return _call('listcomp', g.iter, ast.Lambda(args=args, body=node.elt), cond)
 
+    def visit_DictComp(self, node):
+        # T6d (opt-in with Contract.comprehensions): {k: v for x in it if c} -> __vc__.dictcomp(it, lambda x: k, lambda x: v, lambda x: c)
+        self.generic_visit(node)
+        if not self.comprehensions or len(node.generators) != 1:
+            return node
+        g = node.generators[0]
+        if g.is_async or not isinstance(g.target, ast.Name):
+            return node
+        self.stats['comprehensions'] = self.stats.get('comprehensions', 0) + 1
+        args = ast.arguments(posonlyargs=[], args=[ast.arg(arg=g.target.id)], kwonlyargs=[], kw_defaults=[], defaults=[])
+        cond = ast.Constant(None)
+        if g.ifs:
+            test = g.ifs[0] if len(g.ifs) == 1 else ast.BoolOp(op=ast.And(), values=list(g.ifs))
+            cond = ast.Lambda(args=args, body=test)
+        return _call('dictcomp', g.iter, ast.Lambda(args=args, body=node.key), ast.Lambda(args=args, body=node.value), cond)
+
+    def visit_GeneratorExp(self, node):
+        # T6g (opt-in, Contract.genexps = True): a single-generator generator expression with a plain name target is evaluated like the
+        # list comprehension with the same parts (it is consumed completely by the call it is the argument of; only laziness differs)
+        self.generic_visit(node)
+        if not self.genexps or len(node.generators) != 1:
+            return node
+        g = node.generators[0]
+        if g.is_async or not isinstance(g.target, ast.Name):
+            return node
+        self.stats['genexps'] = self.stats.get('genexps', 0) + 1
+        args = ast.arguments(posonlyargs=[], args=[ast.arg(arg=g.target.id)], kwonlyargs=[], kw_defaults=[], defaults=[])
+        cond = ast.Constant(None)
+        if g.ifs:
+            test = g.ifs[0] if len(g.ifs) == 1 else ast.BoolOp(op=ast.And(), values=list(g.ifs))
+            cond = ast.Lambda(args=args, body=test)
+        return _call('listcomp', g.iter, ast.Lambda(args=args, body=node.elt), cond)
+
     def visit_Raise(self, node):
         self.generic_visit(node)
         if node.exc is not None:
@@ -362,13 +398,13 @@ class Transformer(ast.NodeTransformer):
         return pre + [oneshot]
 
 
-def instrument(loc, cut_loops=(), rebind=None, comprehensions=False):
+def instrument(loc, cut_loops=(), rebind=None, comprehensions=False, genexps=False):
     """-> (code object defining the function, stats).  The function definition is re-parsed from the
     located source segment so that line numbers are relative and the original tree is not mutated."""
     src = textwrap.dedent(loc.source)
     tree = ast.parse(src)
     fn = tree.body[0]
-    tr = Transformer(fn, cut_loops, rebind, comprehensions)
+    tr = Transformer(fn, cut_loops, rebind, comprehensions, genexps)
     n_loops = len(loops_in_source_order(fn))
     for k in cut_loops:
         if k >= n_loops:
